@@ -21,7 +21,7 @@ def deprOK (r : Option String) : Bool := match r with | some x => !x.isEmpty | n
 
 def isNullJ (v : J) : Bool := match v with | .null => true | _ => false
 
-/-- argument / input field: known type, canonical default value (`wtB`: NoH2, NoH3, NoH8), by-name content only -/
+/-- argument / input field: known type, canonical default value (`wtB`: NoH2, NoH8), by-name content only -/
 def argOK (s : SchemaD) (a : ArgD) : Bool :=
   a.pythonName == a.name && (docEnv s).resolves a.type.base && descOK a.desc &&
   (if a.hasDefault then wtB s valueFuel a.default a.type else isNullJ a.default)
@@ -317,7 +317,7 @@ theorem roots_addOps (s : SchemaD) (res : String → Bool) (hq : ∀ q, s.query 
 
 /-- **Well-formedness for the print/build round trip** (decidable). A schema description satisfies it iff
     * every type is `typeOK` (members of its kind only, known references, canonical default values — `wtB`: NoH2 /
-      NoH3 / NoH8 —, SDL-style enum values, non-empty descriptions — NoH5 — and deprecation reasons — NoH6 —, no
+      NoH8 —, SDL-style enum values, non-empty descriptions — NoH5 — and deprecation reasons — NoH6 —, no
       resolver attached: by-name content), every directive definition is `directiveOK`;
     * type names and directive names are unique and do not shadow built-in ones;
     * the roots are object types of the schema (`rootsOK`); no type refers to itself eagerly, no default value needs its own type's fields. -/
